@@ -9,9 +9,13 @@ CHECKS = [
  {"id": "C19",
   "text": "Coq theorems over ALL texts, chunkings, offsets and spans: the mirror of NewlineCache returns exactly the declaratively "
           "specified line, column and line range and never panics; the mirror is tied to the code by running both on every text up to "
-          "length 5 (7 thorough) over {a,é,♠,LF,CR} with random chunkings and on random longer texts, every offset and span.",
+          "length 5 (7 thorough) over {a,é,♠,LF,CR} with random chunkings and on random longer texts, every offset and span. Error "
+          "pretty-printing (SpannedDiagnosticFormatter: underline_span_with_text, file_location_msg, format_spanned, "
+          "underline_spans_on_line_with_text) is mirrored too: C19_underline_rows_spec (the rows printed are exactly the lines of the span "
+          "with their numbers, texts and underlines; no panic), refuted for the pinned code on CRLF / empty last line (repaired 358b143); "
+          "tied in release and debug builds.",
   "design_ref": "DESIGN.md §5 C19",
-  "note": _TB + "binary_search modelled by its documented contract on strictly increasing slices.",
+  "note": _TB + "binary_search modelled by its documented contract on strictly increasing slices; UnicodeWidthStr::width is abstract in the theorems and restricted to characters of known width in the correspondence.",
   "technique": "Coq proof (mirror model = declarative spec, induction over character lists) + differential correspondence with extracted model"},
  {"id": "C01",
   "text": "Coq theorems for ANY grammar/automaton dump that passes the boolean validators and for ALL token sequences: an accepted input "
@@ -70,7 +74,7 @@ CHECKS = [
           "the C10/C11 mirrors which are tied to the code by transcript equality. Plus mass differential: ~32k (quick) near-valid strings per run through all three real "
           "parsers under catch_unwind and a watchdog, every error/warning span checked against is_char_boundary.",
   "design_ref": "DESIGN.md §5 C12, §5E",
-  "note": _TB + "span well-formedness of yacc errors/warnings/AST spans and of lex errors is proved for the repaired code (C12_yacc_error_spans_wellformed, C12_lex_error_spans_wellformed; action-span ends and pre-fix lex spans refuted); native stack depth is outside the model.",
+  "note": _TB + "span well-formedness of yacc errors/warnings/AST spans and of lex errors is proved for the repaired code (C12_yacc_error_spans_wellformed, C12_lex_error_spans_wellformed; action-span ends and pre-fix lex spans refuted); the native stack is modelled as a frame budget: with the repaired parser (nesting limit 64) 65 frames always suffice (C12_header_depth_bounded); the pinned parser is refuted for every budget (C12_header_depth_unbounded_refuted).",
   "technique": "Coq proof (header, yacc and lex parser mirrors total; header spans well-formed) + impl/mirror differential + panic/hang/bad-span oracle on mutated specifications"},
  {"id": "C15",
   "text": "Coq permutation theorems on mirrors whose hash-iteration orders are explicit parameters: Eco implicit-token numbering (pinned code "
@@ -87,7 +91,9 @@ CHECKS = [
           "definitions over sentential forms) and total; verified certificate checkers decide true minimum/maximum/unbounded sentence costs "
           "(C17_certified_costs_exact); MIRRORS of the implementation's own YaccFirsts::new / YaccFollows::new loops are proved exact and "
           "terminating for every well-formed grammar (firsts_mirror_exact, follows_mirror_exact, *_terminates; the pre-fix FOLLOW loop "
-          "refuted) and tied bit for bit to the code; the mirrored min-cost iteration provably diverges on a productive derivation cycle. Tie: the "
+          "refuted) and tied bit for bit to the code; the mirrored PINNED min-cost iteration provably diverges on a productive derivation cycle (repaired in /repo 00106ef); the "
+          "NEW cost algorithms are mirrored and proved exact for every grammar and cost function (C17_min_costs_fixed_exact, "
+          "C17_max_costs_fixed_exact, C17_fixed_costs_terminate, panic exactly when a true finite cost >= 65535). Tie: the "
           "implementation's firsts/follows/has_path/min/max costs/min_sentence(s) are compared bit for bit with the proved-exact references "
           "and certified costs on generated grammars (Earley check of generated sentences).",
   "design_ref": "DESIGN.md §5 C17",
@@ -122,9 +128,11 @@ CHECKS = [
           "refuted). Tie: whole-transcript equality impl vs mirror on printed, mutated and truncated sources; print-then-parse oracle over "
           "abstract grammars x 7 layouts; every accessor on every valid index vs the mirror.",
   "design_ref": "DESIGN.md §5 C10",
-  "note": _TB + "the whole-file round-trip law parse (print layout ag) = ast_of ag is PROVED (C10round_yacc_roundtrip) for the Original dialect and the "
-          "declarations %start/%token/%left/%right/%nonassoc/%epp/%avoid_insert/%expect/%expect-rr, all layouts of blanks/newlines/comments and quoting "
-          "styles; the Coq printer's text is what the check feeds the real parser. Grmtools/Eco dialects, %actiontype/%parse-param/programs: by oracle only.",
+  "note": _TB + "the whole-file round-trip law parse (print layout ag) = ast_of ag is PROVED (C10round_yacc_roundtrip) for all three dialects (Original, Grmtools "
+          "with per-rule action types, Eco with %implicit_tokens), all 12 declaration kinds (%start %token %left/%right/%nonassoc %epp %avoid_insert "
+          "%expect %expect-rr %actiontype %parse-param %parse-generics %expect-unused %implicit_tokens), the programs section, all layouts of "
+          "blanks/newlines/comments and quoting styles; the Coq printer's text is what the check feeds the real parser. Outside the theorem: a "
+          "%grmtools header in the text (C12's mirror), values starting with '/', token names containing both quote kinds.",
   "technique": "Coq proof on mirrors of the yacc parser and grammar builder (totality, faithfulness, ranges, lexical round trips) + print-then-parse oracle + transcript differential"},
  {"id": "C13",
   "text": "Coq theorems for the logic Coq can carry: the $-substitution scanner mirror meets its tokenisation spec for ALL action texts "
@@ -206,11 +214,14 @@ CHECKS = [
           "pinned search is refuted against the reference (search_complete_refuted; repaired in /repo). SOUNDNESS of the search mirror is "
           "proved for all inputs (node_invariant, buckets_in_cost_order, first_success_is_minimal_among_explored, returned_same_cost, "
           "reported_are_successes, mirror_output_form; under reduce-confluence reported_valid and reported_cost_ge_reference); its "
-          "COMPLETENESS (the repaired search returns every reference sequence) is stated (search_complete_stmt true) but NOT proved: partial. Per generated error the "
+          "COMPLETENESS and MINIMALITY are proved too, for minimum costs <= 65535 (dijkstra_complete: the Dijkstra invariant with node "
+          "merging, for every table; reported_cost_minimal; search_complete_bounded / search_reports_exactly on reduce-confluent tables; "
+          "validated_search_complete on validated tables; search_complete_needs_cost_bound: above 65535 the u16 search reports nothing, a "
+          "known finding replayed on the implementation). Per generated error the "
           "implementation's list is compared with the reference set (missing / extra / over-priced sequence = witness) and the ordering, "
           "dedup, equal-cost, no-trailing-shift, no-EOF clauses are checked directly.",
   "design_ref": "DESIGN.md §5 C06, §5B",
-  "note": _TB + "completeness of the bucketed search for ALL inputs is decided per generated (grammar, input, costs) against the verified reference; reference capped by enumeration size (skipped cases counted).",
+  "note": _TB + "completeness/minimality theorems are about the search MIRROR (tied to the code by the correspondence run) and carry cmin <= 65535; the implementation's set is compared per generated error with the proved-exact reference; reference capped by enumeration size (skipped cases counted).",
   "technique": "Coq proof (verified exhaustive reference for minimum-cost repair sets) + set-equality differential with the implementation's repair lists"},
 ]
 
